@@ -83,3 +83,21 @@ def validate_derivation(m, lines, g, word, root, leftmost=True):
     if any(s[0] != "T" for s in last) or tuple(s[1] for s in last) != tuple(word):
         return "last line %r is not the word %r" % (last, tuple(word))
     return None
+
+
+def frontier(m, tree, max_nodes=400):
+    """terminal frontier of a (sub)tree, None when it is not a finite tree"""
+    out, stack, n = [], [tree], 0
+    while stack:
+        node = stack.pop()
+        n += 1
+        if n > max_nodes:
+            return None
+        sons = list(node.sons)
+        if not sons:
+            s = sym_of(m, node.value)
+            if s[0] == "T":
+                out.append(s[1])
+        else:
+            stack.extend(reversed(sons))
+    return tuple(out)
